@@ -586,6 +586,8 @@ type normals2Case struct {
 	Flip   []int     `json:"flip"`
 	All    bool      `json:"all"`
 	EpsRel float64   `json:"eps_rel"`
+	// UnitLog10: mesh, probes and eps in units of 10^UnitLog10 ("adding the normal, scaled by epsilon" is a length)
+	UnitLog10 int `json:"unit_log10,omitempty"`
 }
 
 func genNormals2(t *rapid.T) normals2Case {
@@ -605,6 +607,9 @@ func genNormals2(t *rapid.T) normals2Case {
 		c.All = true
 	}
 	c.EpsRel = gen.LogF(t, 1e-4, 1e-2, "epsrel")
+	if gen.Int(t, 0, 2, "units") == 0 {
+		c.UnitLog10 = []int{-3, 2, 3, 4}[gen.Int(t, 0, 3, "unit_log10")]
+	}
 	return c
 }
 
@@ -655,6 +660,22 @@ func checkNormals2(c normals2Case, o *kit.Obs) error {
 		}
 	}
 	eps := c.EpsRel * clear
+	if c.UnitLog10 != 0 {
+		k := math.Pow(10, float64(c.UnitLog10))
+		scaled := make([]kit.Seg, len(base))
+		for i, sg := range base {
+			scaled[i] = kit.Seg{sg[0].Scale(k), sg[1].Scale(k)}
+		}
+		base = scaled
+		for i := range inside {
+			inside[i] = inside[i].Scale(k)
+		}
+		for i := range outside {
+			outside[i] = outside[i].Scale(k)
+		}
+		eps *= k
+		o.Labelf("unit:1e%d", c.UnitLog10)
+	}
 	set := flipSet(c.Flip, c.All, len(base))
 	in := append([]kit.Seg(nil), base...)
 	for i := range set {
